@@ -72,9 +72,10 @@ class Spec:
 
 
 class Finding:
-    def __init__(self, lineno, what):
+    def __init__(self, lineno, what, loc=None):
         self.lineno = lineno
         self.what = what
+        self.loc = loc          # source text of the written location (`self._q`, `self.cfg.rules`, `col.i_chart`) when known
 
     def __repr__(self):
         return f"line {self.lineno}: {self.what}"
@@ -83,7 +84,9 @@ class Finding:
 class FrameChecker(ast.NodeVisitor):
     """One function.  callee_specs: name -> Spec for repo methods called on possibly external receivers."""
 
-    def __init__(self, fn, spec, callee_specs, aliasing_ctor_params=("V",), cached_self=False):
+    def __init__(self, fn, spec, callee_specs, aliasing_ctor_params=("V",), cached_self=False, resolver=None, depth=0):
+        self.resolver = resolver  # name -> FunctionDef of a sibling method (`self.<name>(..)` with no contract is analysed in place)
+        self.depth = depth
         self.fn = fn
         self.spec = spec
         self.callees = callee_specs
@@ -126,6 +129,14 @@ class FrameChecker(ast.NodeVisitor):
                     return r.split(".")[-1] in ("R", "semiring", "WeightType", "Float", "cls")
                 if f.attr in FRESH_METHODS:
                     return True
+                if isinstance(f.value, ast.Name) and f.value.id == "self" and self.resolver is not None and self.depth < 3 and f.attr not in self.callees:
+                    callee = self.resolver(f.attr)
+                    if callee is not None and callee is not self.fn:
+                        # sibling helper without a contract: fresh iff every `return` of it yields an object it created
+                        sub = FrameChecker(callee, Spec(modifies=self.spec.modifies), self.callees, resolver=self.resolver, depth=self.depth + 1)
+                        sub.check()
+                        rets = [n for n in ast.walk(callee) if isinstance(n, ast.Return)]
+                        return bool(rets) and all(r.value is not None and sub.is_owned_expr(r.value) for r in rets)
                 if f.attr in MUTATORS and f.attr in ("pop", "popitem", "setdefault"):
                     return False      # element of a container: ownership unknown -> external
             return False
@@ -230,7 +241,13 @@ class FrameChecker(ast.NodeVisitor):
 
     def store(self, receiver, node, what):
         if not self.root_allowed(receiver):
-            self.findings.append(Finding(node.lineno, f"{what} `{ast.unparse(node)[:90]}` writes to `{ast.unparse(receiver)}`, which is neither created in this call nor in modifies {list(self.spec.modifies)}"))
+            loc = ast.unparse(receiver)
+            if what == "attribute store" and isinstance(node, (ast.Assign, ast.AugAssign, ast.AnnAssign)):
+                ts = node.targets if isinstance(node, ast.Assign) else [node.target]
+                for t in ts:
+                    if isinstance(t, ast.Attribute) and ast.unparse(t.value) == loc:
+                        loc = ast.unparse(t)
+            self.findings.append(Finding(node.lineno, f"{what} `{ast.unparse(node)[:90]}` writes to `{ast.unparse(receiver)}`, which is neither created in this call nor in modifies {list(self.spec.modifies)}", loc=loc))
 
     def visit_Assign(self, node):
         self.visit(node.value)
@@ -376,6 +393,18 @@ class FrameChecker(ast.NodeVisitor):
                 return
             if isinstance(recv, ast.Name) and recv.id in ("np", "numpy", "math") and f.attr not in NUMPY_WRITERS:
                 return      # module-level numeric function: reads its arguments only
+            if isinstance(recv, ast.Name) and recv.id == "self" and self.resolver is not None and self.depth < 3:
+                callee = self.resolver(f.attr)
+                if callee is not None and callee is not self.fn:
+                    # a sibling method without a contract of its own (e.g. a helper extracted by a refactoring): analysed in place
+                    # with the caller's modifies clause; its stores are the caller's stores
+                    sub = FrameChecker(callee, Spec(modifies=self.spec.modifies), self.callees, resolver=self.resolver, depth=self.depth + 1)
+                    fs, us = sub.check()
+                    for x in fs:
+                        self.findings.append(Finding(node.lineno, f"via {f.attr}(): {x.what}", loc=x.loc))
+                    for x in us:
+                        self.unclassified.append(Finding(node.lineno, f"via {f.attr}(): {x.what}"))
+                    return
             self.unclassified.append(Finding(node.lineno, f"call of `{ast.unparse(f)}` has no frame contract"))
         elif isinstance(f, ast.Name):
             if f.id in self.alias and f.id not in self.callees:
